@@ -409,6 +409,30 @@ fn main() {
             pos::<Un>(txt, "untagged enum"); pos::<Tg>(txt, "internally tagged enum"); pos::<En>(txt, "enum En{U,N(i32)}"); pos::<Vec<Un>>(txt, "Vec<untagged enum>");
         }
     }
+    // C02 / C01 / C03 through the Deserializer API (found F24): one document is read from the front of the text; Ok only if a
+    // well-formed value starts there, and then the text of the Value is that of the prefix; a stream never panics
+    if want("C02") || want("C01") || want("C03") {
+        let pid = if want("C02") { "C02" } else if want("C01") { "C01" } else { "C03" };
+        let mut extra: Vec<Vec<u8>> = docs.clone();
+        for t in ["\"\\\"", "\"abc", "[\"a", "{\"k\":\"v", "{\"k", "\"\\", "[1,\"x\\\"", "\"é", "\"\\u00e9"] { extra.push(t.as_bytes().to_vec()); }
+        for d in &extra {
+            if std::str::from_utf8(d).is_err() { continue; }
+            let first = value(d, 0, 0);
+            let r = catch_unwind(AssertUnwindSafe(|| sonic_rs::Deserializer::from_slice(d).deserialize::<sonic_rs::Value>().map(|v| v.to_string())));
+            match r {
+                Err(_) => report(pid, format!("Deserializer::from_slice({}).deserialize::<Value>() panics", show(d))),
+                Ok(Ok(txt)) => {
+                    match first {
+                        None => report(pid, format!("Deserializer::from_slice({}).deserialize::<Value>() = {} although no well-formed value starts the text", show(d), txt)),
+                        Some(e) => { if want("C03") { if let Ok(want_v) = sonic_rs::from_slice::<sonic_rs::Value>(&d[..e]) { if want_v.to_string() != txt { report("C03", format!("Deserializer::from_slice({}).deserialize::<Value>() = {}, the prefix document is {}", show(d), txt, want_v.to_string())); } } } }
+                    }
+                }
+                Ok(Err(_)) => {}
+            }
+            let r = catch_unwind(AssertUnwindSafe(|| { let st = sonic_rs::Deserializer::from_slice(d).into_stream::<sonic_rs::Value>(); st.take(4).filter(|x| x.is_ok()).count() }));
+            if r.is_err() { report(pid, format!("stream of Values over {} panics", show(d))); }
+        }
+    }
     // C03 (lossy configuration): a stream of Values over input with invalid UTF-8 inside string literals — every
     // document after the first must still be read from its own first byte
     if want("C03") {
